@@ -188,6 +188,17 @@ fn layer_real_pool(ctx: &Ctx) {
                             ctx.case(iters + seq.log.len() as u64, true);
                             ctx.count("real_pool_runs", 1);
                         }
+                        // small games never split at the public task target: explicit targets
+                        // through the hook, repeated (the pool's schedule is not ours)
+                        if tree.num_internal() <= 12 && si == 0 && seed == 0 {
+                            for target in [3usize, 4, 5, 6] {
+                                for _ in 0..(if ctx.thorough() { 10 } else { 4 }) {
+                                    check_real(ctx, tree, &game, &cfg, &seq, 3, Some(target));
+                                    ctx.case(iters + seq.log.len() as u64, true);
+                                    ctx.count("real_pool_runs", 1);
+                                }
+                            }
+                        }
                     }
                 }
             }
